@@ -583,7 +583,7 @@ Proof.
                                Permutation (h_live h3) (sid_of ty sid ++ oid kid ++ [id] ++ h_live h)).
   { destruct ty; try (exists None, h2; split; [reflexivity | exact P2]).
     eexists. eexists. split; [reflexivity|]. cbn [h_alloc h_live sid_of oid app]. apply perm_skip. exact P2. }
-  destruct SID as [sid [h3 [E3 P3]]]. rewrite E3.
+  destruct SID as [sid [h3 [E3 P3]]]. rewrite E3. cbv zeta.
   set (wk' := match ty with TObj => true | _ => false end).
   destruct (is_container ty) eqn:C.
   - destruct (L ch IH wk' h3) as [Q1 Q2]. destruct (clone_list wk' h3 ch) as [h4 ch'] eqn:E4. cbn [fst snd] in *.
@@ -607,4 +607,564 @@ Proof.
       rewrite !app_assoc. apply Permutation_app_tail. apply Permutation_app_tail. apply Permutation_app_comm.
     + cbn [forget snd]. unfold clone_as. rewrite clone_unfold.
       destruct ty; try discriminate; destruct wk; reflexivity.
+Qed.
+
+(* ------------------------------------------------------------------ forget *)
+Lemma forget_ty : forall n, n_ty (forget n) = hn_ty n. Proof. intros []; reflexivity. Qed.
+Lemma forget_kl : forall n, n_kl (forget n) = hn_kl n. Proof. intros []; reflexivity. Qed.
+Lemma forget_key : forall n, n_key (forget n) = hn_key n. Proof. intros []; reflexivity. Qed.
+Lemma forget_ch : forall n, n_ch (forget n) = map forget (hn_ch n). Proof. intros []; reflexivity. Qed.
+Lemma forget_hset_ch : forall n l, forget (hset_ch n l) = set_ch (forget n) (map forget l).
+Proof. intros [] l; reflexivity. Qed.
+Lemma forget_hset_child : forall n i c, forget (hset_child n i c) = set_child (forget n) i (forget c).
+Proof.
+  intros n i c. unfold hset_child, set_child. rewrite forget_hset_ch, forget_ch, map_app. cbn [map].
+  rewrite firstn_map, skipn_map. reflexivity.
+Qed.
+Lemma hn_ty_hset_ch : forall n l, hn_ty (hset_ch n l) = hn_ty n. Proof. intros [] l; reflexivity. Qed.
+Lemma hn_ch_hset_ch : forall n l, hn_ch (hset_ch n l) = l. Proof. intros [] l; reflexivity. Qed.
+Lemma shell_hset_ch : forall n l, shell (hset_ch n l) = shell n. Proof. intros [] l; reflexivity. Qed.
+
+Lemma kid_in_owns : forall c, incl (oid (hn_kid c)) (owns c).
+Proof.
+  intros c x H. rewrite owns_unfold. apply in_or_app. right. unfold shell. apply in_or_app. left. exact H.
+Qed.
+
+Lemma hfind_spec : forall l h pc L, Permutation (h_live h) L -> (forall c, In c l -> incl (oid (hn_kid c)) L) ->
+  hfind h pc l = inr (find_pos (mkey_match pc) (map forget l)).
+Proof.
+  induction l as [|c r IH]; intros h pc L P K; [reflexivity|].
+  cbn [hfind map find_pos]. unfold mkey_match at 1. rewrite forget_kl, forget_key.
+  assert (IHr : hfind h pc r = inr (find_pos (mkey_match pc) (map forget r))).
+  { apply (IH h pc L P). intros c' Hc'. apply K. right. exact Hc'. }
+  destruct (hn_kl c =? n_kl pc); cbn [andb].
+  - assert (U : h_use h (hn_kid c) = inr tt).
+    { unfold h_use. destruct (hn_kid c) as [k|] eqn:E; [|reflexivity].
+      rewrite (live_in h L k P); [reflexivity|]. apply (K c (or_introl eq_refl)). rewrite E. left. reflexivity. }
+    rewrite U. cbn [bindh]. destruct (strncmp_eq (hn_key c) (n_key pc) (Z.to_nat (hn_kl c))); [reflexivity|].
+    rewrite IHr. cbn [bindh]. reflexivity.
+  - rewrite IHr. cbn [bindh]. reflexivity.
+Qed.
+
+(* ------------------------------------------------------------------ merge_h, named pieces *)
+Definition heap_t0 (h : heap) (t : option hnode) (pkl : Z) (pkey : list Z) : herr + (heap * hnode) :=
+  match t with
+  | None =>
+    let '(id, h1) := h_alloc h in
+    let '(kid, h2) := h_alloc h1 in
+    inr (h2, HNode id (Some kid) pkl pkey TObj 0 None [] [])
+  | Some (HNode id kid kl key ty vi sid vs ch) =>
+    match ty with
+    | TObj => inr (h, HNode id kid kl key ty vi sid vs ch)
+    | TStr => bindh (h_free_opt h sid) (fun h1 => inr (h1, HNode id kid kl key TObj 0 None [] []))
+    | TArr => bindh (destroy_list h ch) (fun h1 => inr (h1, HNode id kid kl key TObj 0 None [] []))
+    | _ => inr (h, HNode id kid kl key TObj 0 None [] [])
+    end
+  end.
+
+Definition heap_step (h : heap) (tgt : hnode) (pc : node) : herr + (heap * hnode) :=
+  bindh (hfind h pc (hn_ch tgt)) (fun pos =>
+  match n_ty pc with
+  | TNull =>
+    match pos with
+    | Some i => match nth_error (hn_ch tgt) i with
+                | None => inr (h, tgt)
+                | Some c => bindh (destroy h c) (fun h1 =>
+                            inr (h1, hset_ch tgt (firstn i (hn_ch tgt) ++ skipn (S i) (hn_ch tgt))))
+                end
+    | None => inr (h, tgt)
+    end
+  | _ =>
+    match pos with
+    | Some i =>
+      match nth_error (hn_ch tgt) i with
+      | None => inr (h, tgt)
+      | Some c =>
+        bindh (match hn_ty c, n_ty pc with
+               | TStr, TObj => inr h
+               | TStr, _ => h_free_opt h (hn_sid c)
+               | _, _ => inr h
+               end) (fun h1 =>
+        bindh (merge_h h1 (Some c) pc) (fun hs =>
+        let '(h2, src) := hs in
+        match n_ty pc with
+        | TObj => inr (h2, hset_child tgt i src)
+        | _ =>
+          bindh (if is_container (hn_ty c) then destroy_list h2 (hn_ch c) else inr h2) (fun h3 =>
+          let c' := match c with HNode id kid kl key _ _ _ _ _ =>
+                      HNode id kid kl key (hn_ty src) (hn_vi src) (hn_sid src) (hn_vs src) (hn_ch src) end in
+          bindh (h_free_opt h3 (hn_kid src)) (fun h4 =>
+          bindh (h_free h4 (hn_id src)) (fun h5 =>
+          inr (h5, hset_child tgt i c'))))
+        end))
+      end
+    | None =>
+      bindh (merge_h h None pc) (fun hs =>
+      let '(h1, nn) := hs in inr (h1, hset_ch tgt (hn_ch tgt ++ [nn])))
+    end
+  end).
+
+Fixpoint hfold (h : heap) (tgt : hnode) (l : list node) {struct l} : herr + (heap * hnode) :=
+  match l with
+  | [] => inr (h, tgt)
+  | pc :: l' => bindh (heap_step h tgt pc) (fun ht => let '(h', tgt') := ht in hfold h' tgt' l')
+  end.
+
+Lemma merge_h_unfold : forall h t pkl pkey pty pvi pvs pch,
+  merge_h h t (Node pkl pkey pty pvi pvs pch) =
+  match pty with
+  | TObj => bindh (heap_t0 h t pkl pkey) (fun ht0 => hfold (fst ht0) (snd ht0) pch)
+  | _ => inr (clone_h h true (Node pkl pkey pty pvi pvs pch))
+  end.
+Proof. intros. destruct pty; reflexivity. Qed.
+
+(* ------------------------------------------------------------------ permutations of concatenations by counting *)
+Ltac perm :=
+  apply (Permutation_count_occ Nat.eq_dec);
+  let x := fresh "x" in intro x;
+  repeat match goal with H : Permutation _ _ |- _ =>
+           let H' := fresh "C" in pose proof (proj1 (Permutation_count_occ Nat.eq_dec _ _) H x) as H'; clear H end;
+  repeat rewrite count_occ_app in *; cbn [count_occ app] in *; lia.
+
+Definition owns_opt (t : option hnode) : list nat := match t with Some t0 => owns t0 | None => [] end.
+Definition hres (p : node) (t : option hnode) (F : list nat) (r : herr + (heap * hnode)) : Prop :=
+  exists h' t', r = inr (h', t') /\
+    Permutation (h_live h') (owns t' ++ (match n_ty p with TObj => [] | _ => owns_opt t end) ++ F) /\
+    forget t' = merge_gen clone (option_map forget t) p.
+Definition hIH (pc : node) : Prop := forall h t F, opt_good (option_map forget t) ->
+  Permutation (h_live h) (owns_opt t ++ F) -> hres pc t F (merge_h h t pc).
+
+Lemma clone_adopt_ok : forall p, good p -> good (clone p) /\ val (clone p) = val p /\ n_kl (clone p) = n_kl p /\
+                                           (key_ok p -> n_key (clone p) = n_key p).
+Proof.
+  intros p [H T]. destruct (clone_spec p H) as [A [B [C [D E]]]]. repeat split; auto. rewrite C. exact T.
+Qed.
+
+Lemma owns_split : forall l i c, nth_error l i = Some c ->
+  Permutation (owns_ch l) (owns c ++ owns_ch (firstn i l ++ skipn (S i) l)).
+Proof.
+  intros l i c N. rewrite (nth_split _ l i c N) at 1. rewrite !owns_ch_app, owns_ch_cons. perm.
+Qed.
+Lemma owns_put : forall l i c c', nth_error l i = Some c ->
+  Permutation (owns_ch (firstn i l ++ c' :: skipn (S i) l)) (owns c' ++ owns_ch (firstn i l ++ skipn (S i) l)).
+Proof. intros l i c c' N. rewrite !owns_ch_app, owns_ch_cons. perm. Qed.
+
+Lemma owns_obj : forall t, hn_ty t = TObj -> owns t = owns_ch (hn_ch t) ++ shell t.
+Proof. intros t T. rewrite owns_unfold, T. reflexivity. Qed.
+
+Lemma merge_gen_nonobj : forall t p, n_ty p <> TObj -> merge_gen clone t p = clone p.
+Proof. intros t [kl key ty vi vs ch] H. rewrite merge_gen_unfold. simpl in H. destruct ty; try reflexivity. contradiction. Qed.
+Lemma merge_h_nonobj : forall h t p, n_ty p <> TObj -> merge_h h t p = inr (clone_h h true p).
+Proof. intros h t [kl key ty vi vs ch] H. rewrite merge_h_unfold. simpl in H. destruct ty; try reflexivity. contradiction. Qed.
+
+Lemma gen_step_good : forall tgt pc, good tgt -> n_ty tgt = TObj -> good pc -> key_ok pc ->
+  good (gen_step clone tgt pc) /\ n_ty (gen_step clone tgt pc) = TObj.
+Proof.
+  intros tgt pc [H N] T Gp Kp.
+  destruct (gen_step_spec clone clone_adopt_ok tgt pc (map kv (n_ch tgt)) H T (val_obj tgt T) Gp Kp
+              (fun t Gt => merge_gen_ok clone clone_adopt_ok pc Gp t Gt)) as [A [B _]].
+  split; [split; [exact A | rewrite B; discriminate] | exact B].
+Qed.
+
+Lemma nth_error_forget : forall l i, nth_error (map forget l) i = option_map forget (nth_error l i).
+Proof. intros. apply nth_error_map. Qed.
+
+Definition hs_found_obj (h : heap) (tgt : hnode) (pc : node) (i : nat) (c : hnode) : herr + (heap * hnode) :=
+  bindh (match hn_ty c with TStr => inr h | _ => inr h end) (fun h1 =>
+  bindh (merge_h h1 (Some c) pc) (fun hs => let '(h2, src) := hs in inr (h2, hset_child tgt i src))).
+Definition hs_found_other (h : heap) (tgt : hnode) (pc : node) (i : nat) (c : hnode) : herr + (heap * hnode) :=
+  bindh (match hn_ty c with TStr => h_free_opt h (hn_sid c) | _ => inr h end) (fun h1 =>
+  bindh (merge_h h1 (Some c) pc) (fun hs =>
+  let '(h2, src) := hs in
+  bindh (if is_container (hn_ty c) then destroy_list h2 (hn_ch c) else inr h2) (fun h3 =>
+  let c' := match c with HNode id kid kl key _ _ _ _ _ =>
+              HNode id kid kl key (hn_ty src) (hn_vi src) (hn_sid src) (hn_vs src) (hn_ch src) end in
+  bindh (h_free_opt h3 (hn_kid src)) (fun h4 =>
+  bindh (h_free h4 (hn_id src)) (fun h5 => inr (h5, hset_child tgt i c')))))).
+Definition hs_append (h : heap) (tgt : hnode) (pc : node) : herr + (heap * hnode) :=
+  bindh (merge_h h None pc) (fun hs => let '(h1, nn) := hs in inr (h1, hset_ch tgt (hn_ch tgt ++ [nn]))).
+
+Lemma heap_step_null : forall h tgt pc, n_ty pc = TNull ->
+  heap_step h tgt pc =
+  bindh (hfind h pc (hn_ch tgt)) (fun pos =>
+    match pos with
+    | Some i => match nth_error (hn_ch tgt) i with
+                | None => inr (h, tgt)
+                | Some c => bindh (destroy h c) (fun h1 =>
+                            inr (h1, hset_ch tgt (firstn i (hn_ch tgt) ++ skipn (S i) (hn_ch tgt))))
+                end
+    | None => inr (h, tgt)
+    end).
+Proof. intros h tgt pc H. unfold heap_step. rewrite H. reflexivity. Qed.
+Lemma heap_step_obj : forall h tgt pc, n_ty pc = TObj ->
+  heap_step h tgt pc =
+  bindh (hfind h pc (hn_ch tgt)) (fun pos =>
+    match pos with
+    | Some i => match nth_error (hn_ch tgt) i with None => inr (h, tgt) | Some c => hs_found_obj h tgt pc i c end
+    | None => hs_append h tgt pc
+    end).
+Proof. intros h tgt pc H. unfold heap_step, hs_found_obj, hs_append. rewrite H. reflexivity. Qed.
+Lemma heap_step_other : forall h tgt pc, n_ty pc <> TNull -> n_ty pc <> TObj ->
+  heap_step h tgt pc =
+  bindh (hfind h pc (hn_ch tgt)) (fun pos =>
+    match pos with
+    | Some i => match nth_error (hn_ch tgt) i with None => inr (h, tgt) | Some c => hs_found_other h tgt pc i c end
+    | None => hs_append h tgt pc
+    end).
+Proof.
+  intros h tgt pc H1 H2. unfold heap_step, hs_found_other, hs_append.
+  destruct (n_ty pc); try reflexivity; contradiction.
+Qed.
+
+Lemma heap_step_ok : forall h tgt pc F, hn_ty tgt = TObj -> good (forget tgt) -> good pc -> key_ok pc -> hIH pc ->
+  Permutation (h_live h) (owns tgt ++ F) ->
+  exists h' tgt', heap_step h tgt pc = inr (h', tgt') /\ Permutation (h_live h') (owns tgt' ++ F) /\
+                  forget tgt' = gen_step clone (forget tgt) pc /\ hn_ty tgt' = TObj.
+Proof.
+  intros h tgt pc F T G Gp Kp IH P.
+  assert (OT := owns_obj tgt T).
+  assert (KL : forall c, In c (hn_ch tgt) -> incl (oid (hn_kid c)) (owns tgt ++ F)).
+  { intros c Hc x Hx. apply in_or_app. left. rewrite OT. apply in_or_app. left.
+    unfold owns_ch. apply in_flat_map. exists c. split; [exact Hc | apply kid_in_owns; exact Hx]. }
+  pose proof (hfind_spec _ h pc _ P KL) as HF.
+  destruct G as [GI GT]. pose proof GI as GI0. apply inv_unfold in GI. destruct GI as [GC _]. rewrite forget_ch in GC.
+  (* the append case, shared by the two non-null shapes *)
+  assert (APP : n_ty pc <> TNull -> find_pos (mkey_match pc) (map forget (hn_ch tgt)) = None ->
+                exists h' tgt', hs_append h tgt pc = inr (h', tgt') /\ Permutation (h_live h') (owns tgt' ++ F) /\
+                                forget tgt' = gen_step clone (forget tgt) pc /\ hn_ty tgt' = TObj).
+  { intros TN' FP. rewrite (gen_step_nonnull clone _ pc TN'). rewrite forget_ch, FP.
+    assert (P1 : Permutation (h_live h) (owns_opt None ++ owns tgt ++ F)) by (cbn [owns_opt app]; exact P).
+    destruct (IH h None _ I P1) as [h1 [nn [E1 [Q1 F1]]]]. unfold hs_append. rewrite E1. cbn [bindh].
+    eexists. eexists. split; [reflexivity|]. split; [|split].
+    - rewrite owns_obj by (rewrite hn_ty_hset_ch; exact T). rewrite hn_ch_hset_ch, shell_hset_ch, owns_ch_app.
+      rewrite OT in Q1. cbn [owns_opt] in Q1. unfold owns_ch at 2. cbn [flat_map]. rewrite app_nil_r.
+      assert (Q1' : Permutation (h_live h1) (owns nn ++ owns_ch (hn_ch tgt) ++ shell tgt ++ F)).
+      { destruct (n_ty pc); cbn [app] in Q1; perm. }
+      perm.
+    - rewrite forget_hset_ch, map_app. cbn [map]. rewrite F1. reflexivity.
+    - rewrite hn_ty_hset_ch. exact T. }
+  destruct (ty_eqb (n_ty pc) TNull) eqn:TN.
+  - (* null: the member, if any, is unlinked and freed *)
+    apply ty_eqb_eq in TN. rewrite (heap_step_null h tgt pc TN), HF. cbn [bindh].
+    unfold gen_step. rewrite TN, forget_ch.
+    destruct (find_pos (mkey_match pc) (map forget (hn_ch tgt))) as [i|] eqn:FP.
+    + pose proof (find_pos_lt _ _ _ FP) as LT. rewrite map_length in LT.
+      destruct (nth_error (hn_ch tgt) i) as [c|] eqn:N; [|apply nth_error_None in N; lia].
+      pose proof (owns_split _ _ _ N) as OS.
+      set (rest := owns_ch (firstn i (hn_ch tgt) ++ skipn (S i) (hn_ch tgt))) in *.
+      assert (P1 : Permutation (h_live h) (owns c ++ rest ++ shell tgt ++ F)) by (rewrite OT in P; perm).
+      destruct (destroy_perm c h _ P1) as [h1 [E1 Q1]]. rewrite E1. cbn [bindh].
+      eexists. eexists. split; [reflexivity|]. split; [|split].
+      * rewrite owns_obj by (rewrite hn_ty_hset_ch; exact T). rewrite hn_ch_hset_ch, shell_hset_ch. fold rest. perm.
+      * rewrite forget_hset_ch, map_app, firstn_map, skipn_map. reflexivity.
+      * rewrite hn_ty_hset_ch. exact T.
+    + exists h, tgt. repeat split; auto.
+  - assert (TN' : n_ty pc <> TNull) by (intro E; rewrite E in TN; discriminate).
+    destruct (ty_eqb (n_ty pc) TObj) eqn:TO.
+    + (* object patch: recursive merge into the member, or append *)
+      apply ty_eqb_eq in TO. rewrite (heap_step_obj h tgt pc TO), HF. cbn [bindh].
+      destruct (find_pos (mkey_match pc) (map forget (hn_ch tgt))) as [i|] eqn:FP; [|apply APP; auto].
+      pose proof (find_pos_lt _ _ _ FP) as LT. rewrite map_length in LT.
+      destruct (nth_error (hn_ch tgt) i) as [c|] eqn:N; [|apply nth_error_None in N; lia].
+      assert (Gc : good (forget c)).
+      { eapply Forall_nth; [exact GC|]. rewrite nth_error_forget, N. reflexivity. }
+      pose proof (owns_split _ _ _ N) as OS.
+      set (rest := owns_ch (firstn i (hn_ch tgt) ++ skipn (S i) (hn_ch tgt))) in *.
+      rewrite (gen_step_nonnull clone _ pc TN'). rewrite forget_ch, FP, nth_error_forget, N. cbn [option_map]. rewrite TO.
+      unfold hs_found_obj.
+      replace (match hn_ty c with TStr => inr h | _ => inr h end) with (@inr herr heap h) by (destruct (hn_ty c); reflexivity).
+      cbn [bindh].
+      assert (P1 : Permutation (h_live h) (owns_opt (Some c) ++ rest ++ shell tgt ++ F)) by (cbn [owns_opt]; rewrite OT in P; perm).
+      destruct (IH h (Some c) _ Gc P1) as [h2 [src [E2 [Q2 F2]]]]. rewrite E2. cbn [bindh]. rewrite TO in Q2.
+      eexists. eexists. split; [reflexivity|]. split; [|split].
+      * unfold hset_child. rewrite owns_obj by (rewrite hn_ty_hset_ch; exact T). rewrite hn_ch_hset_ch, shell_hset_ch.
+        pose proof (owns_put _ i c src N) as OP. fold rest in OP. perm.
+      * rewrite forget_hset_child, F2. reflexivity.
+      * unfold hset_child. rewrite hn_ty_hset_ch. exact T.
+    + (* anything else: the member takes the data of a fresh clone, or a clone is appended *)
+      assert (TO' : n_ty pc <> TObj) by (intro E; rewrite E in TO; discriminate).
+      rewrite (heap_step_other h tgt pc TN' TO'), HF. cbn [bindh].
+      destruct (find_pos (mkey_match pc) (map forget (hn_ch tgt))) as [i|] eqn:FP; [|apply APP; auto].
+      pose proof (find_pos_lt _ _ _ FP) as LT. rewrite map_length in LT.
+      destruct (nth_error (hn_ch tgt) i) as [c|] eqn:N; [|apply nth_error_None in N; lia].
+      pose proof (owns_split _ _ _ N) as OS.
+      set (rest := owns_ch (firstn i (hn_ch tgt) ++ skipn (S i) (hn_ch tgt))) in *.
+      rewrite (gen_step_nonnull clone _ pc TN'). rewrite forget_ch, FP, nth_error_forget, N. cbn [option_map].
+      rewrite (merge_gen_nonobj _ pc TO').
+      replace (match n_ty pc with TObj => clone pc | _ => copy_data (forget c) (clone pc) end) with (copy_data (forget c) (clone pc))
+        by (destruct (n_ty pc); try reflexivity; contradiction).
+      unfold hs_found_other.
+      destruct c as [cid ckid ckl ckey cty cvi csid cvs cch]. cbn [hn_ty hn_sid hn_ch] in *.
+      rewrite owns_unfold in OS. cbn [hn_ty hn_ch] in OS. unfold shell in OS. cbn [hn_kid hn_ty hn_sid hn_id] in OS.
+      set (CC := if is_container cty then owns_ch cch else []) in *.
+      assert (S1 : exists h1, match cty with TStr => h_free_opt h csid | _ => inr h end = inr h1 /\
+                              Permutation (h_live h1) (CC ++ oid ckid ++ [cid] ++ rest ++ shell tgt ++ F)).
+      { destruct (ty_eqb cty TStr) eqn:CS.
+        - apply ty_eqb_eq in CS. subst cty. cbn [sid_of] in OS. apply free_opt_perm. rewrite OT in P. perm.
+        - exists h. split; [destruct cty; try reflexivity; discriminate|].
+          replace (sid_of cty csid) with (@nil nat) in OS by (destruct cty; try reflexivity; discriminate).
+          rewrite OT in P. perm. }
+      destruct S1 as [h1 [E1 Q1]]. rewrite E1. cbn [bindh].
+      rewrite (merge_h_nonobj h1 _ pc TO'). cbn [bindh].
+      destruct (clone_h_spec pc true h1) as [Q2 F2]. destruct (clone_h h1 true pc) as [h2 src]. cbn [fst snd] in Q2, F2.
+      assert (S3 : exists h3, (if is_container cty then destroy_list h2 cch else inr h2) = inr h3 /\
+                              Permutation (h_live h3) (owns src ++ oid ckid ++ [cid] ++ rest ++ shell tgt ++ F)).
+      { unfold CC in Q1. destruct (is_container cty).
+        - apply destroy_list_perm. perm.
+        - exists h2. split; [reflexivity | perm]. }
+      destruct S3 as [h3 [E3 Q3]]. rewrite E3. cbn [bindh].
+      destruct src as [sid0 skid skl skey sty svi ssid svs sch]. cbn [hn_kid hn_id hn_ty hn_vi hn_sid hn_vs hn_ch] in *.
+      rewrite owns_unfold in Q3. cbn [hn_ty hn_ch] in Q3. unfold shell at 1 in Q3. cbn [hn_kid hn_ty hn_sid hn_id] in Q3.
+      set (SC := if is_container sty then owns_ch sch else []) in *.
+      assert (Q3' : Permutation (h_live h3) (oid skid ++ (SC ++ sid_of sty ssid ++ [sid0] ++ oid ckid ++ [cid] ++ rest ++ shell tgt ++ F))) by perm.
+      destruct (free_opt_perm h3 skid _ Q3') as [h4 [E4 Q4]]. rewrite E4. cbn [bindh].
+      assert (Q4' : Permutation (h_live h4) (sid0 :: (SC ++ sid_of sty ssid ++ oid ckid ++ [cid] ++ rest ++ shell tgt ++ F))).
+      { change (sid0 :: ?l) with ([sid0] ++ l). perm. }
+      destruct (free_perm h4 sid0 _ Q4') as [h5 [E5 [Q5 _]]]. rewrite E5. cbn [bindh].
+      eexists. eexists. split; [reflexivity|]. split; [|split].
+      * unfold hset_child. rewrite owns_obj by (rewrite hn_ty_hset_ch; exact T). rewrite hn_ch_hset_ch, shell_hset_ch.
+        pose proof (owns_put _ i _ (HNode cid ckid ckl ckey sty svi ssid svs sch) N) as OP. fold rest in OP.
+        rewrite owns_unfold in OP. cbn [hn_ty hn_ch] in OP. unfold shell in OP. cbn [hn_kid hn_ty hn_sid hn_id] in OP.
+        fold SC in OP. perm.
+      * rewrite forget_hset_child. f_equal. unfold clone_as in F2. rewrite <- F2. reflexivity.
+      * unfold hset_child. rewrite hn_ty_hset_ch. exact T.
+Qed.
+
+Lemma hfold_ok : forall pch, Forall good pch -> Forall key_ok pch -> Forall hIH pch ->
+  forall h tgt F, hn_ty tgt = TObj -> good (forget tgt) -> Permutation (h_live h) (owns tgt ++ F) ->
+  exists h' tgt', hfold h tgt pch = inr (h', tgt') /\ Permutation (h_live h') (owns tgt' ++ F) /\
+                  forget tgt' = fold_left (gen_step clone) pch (forget tgt) /\ hn_ty tgt' = TObj.
+Proof.
+  induction pch as [|pc r IHr]; intros G K IH h tgt F T Gt P.
+  - exists h, tgt. repeat split; auto.
+  - inversion G as [|? ? Gp Gr]; subst. inversion K as [|? ? Kp Kr]; subst. inversion IH as [|? ? Ip Ir]; subst.
+    destruct (heap_step_ok h tgt pc F T Gt Gp Kp Ip P) as [h1 [tgt1 [E1 [P1 [F1 T1]]]]].
+    cbn [hfold fold_left]. rewrite E1. cbn [bindh].
+    assert (G1 : good (forget tgt1)).
+    { rewrite F1. apply gen_step_good; auto. rewrite forget_ty. exact T. }
+    destruct (IHr Gr Kr Ir h1 tgt1 F T1 G1 P1) as [h2 [tgt2 [E2 [P2 [F2 T2]]]]].
+    exists h2, tgt2. repeat split; auto. rewrite F2, F1. reflexivity.
+Qed.
+
+Lemma heap_t0_ok : forall h t pkl pkey F, opt_good (option_map forget t) -> Permutation (h_live h) (owns_opt t ++ F) ->
+  exists h0 t0, heap_t0 h t pkl pkey = inr (h0, t0) /\ Permutation (h_live h0) (owns t0 ++ F) /\
+                forget t0 = pool_t0 (option_map forget t) pkl pkey /\ hn_ty t0 = TObj /\ good (forget t0).
+Proof.
+  intros h t pkl pkey F G P. unfold heap_t0. destruct t as [[id kid kl key ty vi sid vs ch]|].
+  - cbn [owns_opt option_map opt_good] in *. rewrite owns_unfold in P. cbn [hn_ty hn_ch] in P. unfold shell in P.
+    cbn [hn_kid hn_ty hn_sid hn_id] in P.
+    assert (RG : good (Node kl key TObj 0 [] [])) by (split; [simpl; auto | discriminate]).
+    destruct ty.
+    + (* none *) eexists. eexists. split; [reflexivity|]. repeat split; auto; try apply RG; cbn [sid_of app] in P; try exact P.
+    + eexists. eexists. split; [reflexivity|]. repeat split; auto; try apply RG; cbn [sid_of app] in P; try exact P.
+    + eexists. eexists. split; [reflexivity|]. repeat split; auto; try apply RG; cbn [sid_of app] in P; try exact P.
+    + eexists. eexists. split; [reflexivity|]. repeat split; auto; try apply RG; cbn [sid_of app] in P; try exact P.
+    + eexists. eexists. split; [reflexivity|]. repeat split; auto; try apply RG; cbn [sid_of app] in P; try exact P.
+    + (* string: its bytes are freed *)
+      change (is_container TStr) with false in P. cbn [sid_of app] in P.
+      assert (P' : Permutation (h_live h) (oid sid ++ (oid kid ++ [id] ++ F))) by perm.
+      destruct (free_opt_perm h sid _ P') as [h1 [E1 Q1]]. rewrite E1. cbn [bindh].
+      eexists. eexists. split; [reflexivity|]. repeat split; auto; try apply RG.
+      rewrite owns_unfold. cbn [hn_ty hn_ch]. unfold shell. cbn [hn_kid hn_ty hn_sid hn_id sid_of app].
+      change (is_container TObj) with true. cbn [owns_ch flat_map app]. perm.
+    + (* object *) eexists. eexists. split; [reflexivity|]. repeat split; auto; try apply G.
+    + (* array: its items are destroyed *)
+      change (is_container TArr) with true in P. cbn [sid_of app] in P.
+      assert (P' : Permutation (h_live h) (owns_ch ch ++ (oid kid ++ [id] ++ F))) by perm.
+      destruct (destroy_list_perm ch h _ P') as [h1 [E1 Q1]]. rewrite E1. cbn [bindh].
+      eexists. eexists. split; [reflexivity|]. repeat split; auto; try apply RG.
+      rewrite owns_unfold. cbn [hn_ty hn_ch]. unfold shell. cbn [hn_kid hn_ty hn_sid hn_id sid_of app].
+      change (is_container TObj) with true. cbn [owns_ch flat_map app]. perm.
+  - cbn [owns_opt option_map app] in *.
+    destruct (h_alloc h) as [id h1] eqn:E1. destruct (h_alloc h1) as [kid h2] eqn:E2.
+    assert (A1 : h_live h1 = id :: h_live h) by (unfold h_alloc in E1; inversion E1; reflexivity).
+    assert (A2 : h_live h2 = kid :: h_live h1) by (unfold h_alloc in E2; inversion E2; reflexivity).
+    eexists. eexists. split; [reflexivity|]. repeat split; auto; try discriminate; try (simpl; auto; fail).
+    rewrite owns_unfold. cbn [hn_ty hn_ch]. unfold shell. cbn [hn_kid hn_ty hn_sid hn_id sid_of oid app].
+    rewrite A2, A1. change (is_container TObj) with true. cbn [owns_ch flat_map app].
+    apply perm_skip. apply perm_skip. exact P.
+Qed.
+
+(* the heap variant: runs without a memory error, keeps exactly the allocations of its result, and its result is the
+   walk of merge_gen clone *)
+Theorem merge_h_ok : forall p, good p -> hIH p.
+Proof.
+  induction p as [pkl pkey pty pvi pvs pch IH] using node_ind'. intros [Hp Np] h t F Gt P.
+  unfold hres. rewrite merge_h_unfold, merge_gen_unfold. cbn [n_ty]. simpl in Np.
+  destruct (ty_eqb pty TObj) eqn:TO.
+  - apply ty_eqb_eq in TO. subst pty.
+    apply inv_unfold in Hp. cbn [n_ty n_ch] in Hp. destruct Hp as [Hg Hk].
+    assert (IH' : Forall hIH pch).
+    { rewrite Forall_forall in IH, Hg. apply Forall_forall. intros pc Hpc. apply IH; auto. }
+    destruct (heap_t0_ok h t pkl pkey F Gt P) as [h0 [t0 [E0 [P0 [F0 [T0 G0]]]]]]. rewrite E0. cbn [bindh fst snd].
+    destruct (hfold_ok pch Hg Hk IH' h0 t0 F T0 G0 P0) as [h1 [t1 [E1 [P1 [F1 T1]]]]].
+    exists h1, t1. split; [exact E1|]. split; [cbn [app]; exact P1 | rewrite F1, F0; reflexivity].
+  - assert (TO' : pty <> TObj) by (intro E; rewrite E in TO; discriminate).
+    set (p := Node pkl pkey pty pvi pvs pch).
+    destruct (clone_h_spec p true h) as [Q F2]. destruct (clone_h h true p) as [h1 src] eqn:E. cbn [fst snd] in Q, F2.
+    exists h1, src.
+    replace (match pty with TObj => bindh (heap_t0 h t pkl pkey) (fun ht0 => hfold (fst ht0) (snd ht0) pch) | _ => inr (h1, src) end)
+      with (@inr herr _ (h1, src)) by (destruct pty; try reflexivity; contradiction).
+    split; [reflexivity|]. split.
+    + replace (match pty with TObj => [] | _ => owns_opt t end) with (owns_opt t) by (destruct pty; try reflexivity; contradiction).
+      perm.
+    + replace (match pty with TObj => fold_left (gen_step clone) pch (pool_t0 (option_map forget t) pkl pkey) | _ => clone p end)
+        with (clone p) by (destruct pty; try reflexivity; contradiction).
+      exact F2.
+Qed.
+
+(* ================================================================== the theorems of C16 *)
+Theorem merge_pool_rfc7386 : forall t p, opt_good t -> good p ->
+  val (merge_pool t p) = merge_spec (option_map val t) (val p) /\ good (merge_pool t p).
+Proof. intros t p Gt Gp. destruct (merge_pool_ok p Gp t Gt) as [A [B _]]. split; auto. Qed.
+
+Theorem jbn_merge_patch_pool_rfc7386 : forall root patch, good root -> good patch ->
+  match jbn_merge_patch_pool root patch with
+  | (RcOk, r) => val r = merge_spec (Some (val root)) (val patch) /\ good r
+  | (_, r) => r = root /\ (n_ty root <> TObj \/ n_ty patch <> TObj)
+  end.
+Proof.
+  intros root patch Gr Gp. unfold jbn_merge_patch_pool.
+  destruct (n_ty root) eqn:TR; try (split; [reflexivity | left; discriminate]).
+  destruct (n_ty patch) eqn:TP; try (split; [reflexivity | right; discriminate]).
+  apply (merge_pool_rfc7386 (Some root) patch Gr Gp).
+Qed.
+
+Theorem merge_heap_safe : forall h root patch F, good (forget root) -> good patch ->
+  Permutation (h_live h) (owns root ++ F) ->
+  exists rc h' root', jbn_merge_patch_heap h root patch = inr (rc, h', root') /\
+    Permutation (h_live h') (owns root' ++ F) /\
+    (exists h'', destroy h' root' = inr h'' /\ Permutation (h_live h'') F) /\
+    (rc = RcOk -> val (forget root') = merge_spec (Some (val (forget root))) (val patch) /\ good (forget root')) /\
+    (rc <> RcOk -> root' = root /\ h' = h).
+Proof.
+  intros h root patch F Gr Gp P. unfold jbn_merge_patch_heap.
+  assert (KEEP : exists rc h' root', @inr herr _ (RcInvArgs, h, root) = inr (rc, h', root') /\
+    Permutation (h_live h') (owns root' ++ F) /\
+    (exists h'', destroy h' root' = inr h'' /\ Permutation (h_live h'') F) /\
+    (rc = RcOk -> val (forget root') = merge_spec (Some (val (forget root))) (val patch) /\ good (forget root')) /\
+    (rc <> RcOk -> root' = root /\ h' = h)).
+  { exists RcInvArgs, h, root. split; [reflexivity|]. split; [exact P|]. split; [apply destroy_perm; exact P|].
+    split; [discriminate | auto]. }
+  destruct (hn_ty root) eqn:TR; try exact KEEP.
+  destruct (n_ty patch) eqn:TP; try exact KEEP.
+  destruct (merge_h_ok patch Gp h (Some root) F Gr P) as [h1 [r1 [E1 [P1 F1]]]]. rewrite E1. cbn [bindh fst snd].
+  rewrite TP in P1. cbn [app] in P1.
+  exists RcOk, h1, r1. split; [reflexivity|]. split; [exact P1|]. split; [apply destroy_perm; exact P1|].
+  split; [|intro E; contradiction]. intros _. rewrite F1. cbn [option_map].
+  destruct (merge_gen_ok clone clone_adopt_ok patch Gp (Some (forget root)) Gr) as [A [B _]]. split; auto.
+Qed.
+
+(* the heap-allocated copy the harness (and any caller using jbn_clone(.., 0)) starts from *)
+Theorem heap_of_ok : forall doc, good doc ->
+  Permutation (h_live (fst (heap_of doc))) (owns (snd (heap_of doc)) ++ []) /\
+  good (forget (snd (heap_of doc))) /\ val (forget (snd (heap_of doc))) = val doc.
+Proof.
+  intros doc G. unfold heap_of. destruct (clone_h_spec doc false h_empty) as [P F]. split; [exact P|].
+  rewrite F. unfold clone_as. destruct (clone_adopt_ok doc G) as [A [B _]].
+  split; [apply good_set_key; exact A | rewrite val_set_key; exact B].
+Qed.
+
+(* all entry points compute the same value *)
+Theorem merge_variants_agree : forall h root hroot patch F,
+  good root -> n_ty root = TObj -> good patch -> n_ty patch = TObj ->
+  good (forget hroot) -> val (forget hroot) = val root -> hn_ty hroot = TObj ->
+  Permutation (h_live h) (owns hroot ++ F) ->
+  let spec := merge_spec (Some (val root)) (val patch) in
+  (exists r, jbn_merge_patch_pool root patch = (RcOk, r) /\ val r = spec) /\
+  val (jbn_merge_patch_node root patch) = spec /\
+  (forall fo, exists r, jbn_patch_auto fo root patch = (RcOk, r) /\ val r = spec) /\
+  (exists h' r, jbn_merge_patch_heap h hroot patch = inr (RcOk, h', r) /\ val (forget r) = spec).
+Proof.
+  intros h root hroot patch F Gr TR Gp TP Gh VH TH P spec.
+  destruct (merge_pool_rfc7386 (Some root) patch Gr Gp) as [A _]. cbn [option_map] in A.
+  split; [|split; [|split]].
+  - unfold jbn_merge_patch_pool. rewrite TR, TP. eexists. split; [reflexivity | exact A].
+  - exact A.
+  - intro fo. unfold jbn_patch_auto. rewrite TP. eexists. split; [reflexivity | exact A].
+  - unfold jbn_merge_patch_heap. rewrite TH, TP.
+    destruct (merge_h_ok patch Gp h (Some hroot) F Gh P) as [h1 [r1 [E1 [P1 F1]]]]. rewrite E1. cbn [bindh fst snd].
+    exists h1, r1. split; [reflexivity|]. rewrite F1. cbn [option_map].
+    destruct (merge_gen_ok clone clone_adopt_ok patch Gp (Some (forget hroot)) Gh) as [_ [B _]].
+    rewrite B. cbn [option_map]. rewrite VH. reflexivity.
+Qed.
+
+(* binary form: for conversions that are inverse on values the result denotes MergePatch, any patch *)
+Theorem merge_binary_rfc7386 : forall (B : Type) (dec : B -> node) (enc : node -> option B) b patch,
+  (forall b0, good (dec b0)) ->
+  (forall n, good n -> exists b', enc n = Some b' /\ val (dec b') = val n) ->
+  good patch ->
+  exists b', merge_binary B dec enc b patch = (RcOk, b') /\ val (dec b') = merge_spec (Some (val (dec b))) (val patch).
+Proof.
+  intros B dec enc b patch HD HE Gp. unfold merge_binary, jbn_merge_patch_node.
+  destruct (merge_pool_rfc7386 (Some (dec b)) patch (HD b) Gp) as [A G]. cbn [option_map] in A.
+  destruct (HE _ G) as [b' [E1 E2]]. rewrite E1. exists b'. split; [reflexivity|]. rewrite E2. exact A.
+Qed.
+
+(* path form: the wrapper built by jbn_merge_patch_create *)
+Fixpoint wrap_val (segs : list seg) (v : option jval) : list (sseg * jval) :=
+  match segs with
+  | [] => []
+  | s :: r => [(s, match r, v with [], Some x => x | _, _ => JObj (wrap_val r v) end)]
+  end.
+Lemma wrap_child_spec : forall segs v, opt_good v ->
+  match wrap_child segs v with
+  | Some c => good c /\ key_ok c /\ [kv c] = wrap_val segs (option_map val v)
+  | None => segs = []
+  end.
+Proof.
+  induction segs as [|s r IH]; intros v G; [reflexivity|].
+  cbn [wrap_child wrap_val]. specialize (IH v G).
+  assert (OBJ : good (Node (Z.of_nat (length s)) s TObj 0 [] (match wrap_child r v with Some c => [c] | None => [] end)) /\
+                key_ok (Node (Z.of_nat (length s)) s TObj 0 [] (match wrap_child r v with Some c => [c] | None => [] end)) /\
+                [kv (Node (Z.of_nat (length s)) s TObj 0 [] (match wrap_child r v with Some c => [c] | None => [] end))] =
+                [(s, JObj (wrap_val r (option_map val v)))]).
+  { split; [|split; [reflexivity|]].
+    - split; [|discriminate]. apply inv_unfold. cbn [n_ty n_ch].
+      destruct (wrap_child r v) as [c|]; [|split; constructor].
+      destruct IH as [I1 [I2 _]]. split; constructor; auto.
+    - unfold kv at 1. cbn [n_key]. f_equal. f_equal. cbn [val]. f_equal. destruct (wrap_child r v) as [c|].
+      + destruct IH as [_ [_ I3]]. exact I3.
+      + subst r. reflexivity. }
+  destruct r as [|s2 r']; [|exact OBJ].
+  destruct v as [v|]; [|exact OBJ].
+  cbn [option_map opt_good] in *. split; [apply good_set_kl, good_set_key; exact G|]. split.
+  - unfold key_ok. rewrite n_kl_set_kl, n_key_set_kl, n_key_set_key. reflexivity.
+  - unfold kv. rewrite n_key_set_kl, n_key_set_key, val_set_kl, val_set_key. reflexivity.
+Qed.
+
+Theorem merge_path_rfc7386 : forall root path segs v, good root -> n_ty root = TObj -> opt_good v ->
+  path <> [] -> path <> [47] -> ptr_parse path = PtrOk segs ->
+  exists r, jbn_merge_patch_path_pool root path v = (RcOk, r) /\
+            val r = merge_spec (Some (val root)) (JObj (wrap_val segs (option_map val v))).
+Proof.
+  intros root path segs v Gr TR Gv N1 N2 PP. unfold jbn_merge_patch_path_pool, merge_patch_create. rewrite PP.
+  destruct path as [|c [|c2 r]]; try contradiction.
+  - destruct (Z.eq_dec c 47) as [E|E]; [subst; contradiction|].
+    set (p := Node 0 [] TObj 0 [] (match wrap_child segs v with Some c0 => [c0] | None => [] end)).
+    assert (Gp : good p /\ val p = JObj (wrap_val segs (option_map val v))).
+    { pose proof (wrap_child_spec segs v Gv) as W. unfold p. split.
+      - split; [|discriminate]. apply inv_unfold. cbn [n_ty n_ch].
+        destruct (wrap_child segs v) as [c0|]; [|split; constructor]. destruct W as [W1 [W2 _]]. split; constructor; auto.
+      - cbn [val]. f_equal. destruct (wrap_child segs v) as [c0|].
+        + destruct W as [_ [_ W3]]. exact W3.
+        + subst segs. reflexivity. }
+    destruct Gp as [Gp Vp].
+    replace (match c with 47 => _ | _ => _ end) with (@inr rc _ (Some p)).
+    2:{ destruct c as [|q|q]; try reflexivity. do 6 (destruct q as [q|q|]; try reflexivity). exfalso. apply E. reflexivity. }
+    unfold jbn_merge_patch_pool. rewrite TR. cbn [n_ty p].
+    destruct (merge_pool_rfc7386 (Some root) p Gr Gp) as [A _]. eexists. split; [reflexivity|]. rewrite A, Vp. reflexivity.
+  - set (p := Node 0 [] TObj 0 [] (match wrap_child segs v with Some c0 => [c0] | None => [] end)).
+    assert (Gp : good p /\ val p = JObj (wrap_val segs (option_map val v))).
+    { pose proof (wrap_child_spec segs v Gv) as W. unfold p. split.
+      - split; [|discriminate]. apply inv_unfold. cbn [n_ty n_ch].
+        destruct (wrap_child segs v) as [c0|]; [|split; constructor]. destruct W as [W1 [W2 _]]. split; constructor; auto.
+      - cbn [val]. f_equal. destruct (wrap_child segs v) as [c0|].
+        + destruct W as [_ [_ W3]]. exact W3.
+        + subst segs. reflexivity. }
+    destruct Gp as [Gp Vp].
+    replace (match c with 47 => _ | _ => _ end) with (@inr rc _ (Some p)).
+    2:{ destruct c as [|q|q]; try reflexivity. do 6 (destruct q as [q|q|]; try reflexivity). }
+    unfold jbn_merge_patch_pool. rewrite TR. cbn [n_ty p].
+    destruct (merge_pool_rfc7386 (Some root) p Gr Gp) as [A _]. eexists. split; [reflexivity|]. rewrite A, Vp. reflexivity.
 Qed.
